@@ -143,7 +143,9 @@ func checkHilbert(c hilbertCase) *vk.Failure {
 			return f
 		}
 		vk.NonTrivial("hilbert-sampled", c.Dim, c.Order, p)
-		if p+1 < h.Len() {
+		// p+1 is a position of the curve (Len itself is not representable for
+		// the 3-D curve of order 21, whose last position is MaxInt64)
+		if bits := c.Dim * c.Order; (bits < 63 && p+1 < 1<<bits) || (bits >= 63 && p < math.MaxInt64) {
 			w, f := one(p+1, nil)
 			if f != nil {
 				return f
@@ -168,7 +170,9 @@ func TestHilbert(t *testing.T) {
 	// sampled positions at every legal order up to the largest the constructors accept
 	vk.Run(t, "hilbert-sampled", vk.Opts{Quick: 4000, Thorough: 100000, NoCrumb: true}, func(t *rapid.T) hilbertCase {
 		dim := rapid.IntRange(2, 4).Draw(t, "dim")
-		maxOrder := map[int]int{2: 31, 3: 20, 4: 15}[dim]
+		// the largest orders the constructors accept (3-D order 21: positions fill
+		// the whole non-negative int64 range)
+		maxOrder := map[int]int{2: 31, 3: 21, 4: 15}[dim]
 		order := rapid.IntRange(1, maxOrder).Draw(t, "order")
 		bits := uint(dim * order)
 		n := rapid.IntRange(1, 8).Draw(t, "npos")
